@@ -1,32 +1,386 @@
-import BdModel.Sched.Defs
+import BdModel.Proofs.Sched.LimitBase
 /- helper lemmas + main proofs for C15 and C03 -/
 namespace BdModel.Sched
-
-theorem runningCount_le (c : Cfg) (s : State) (hr : Reach c s) (hk : 0 < c.maxActive) :
-    runningCount c s ≤ c.maxActive := by
-  sorry
-
-theorem activeWorkers_le (c : Cfg) (hn : NoRep c) (s : State) (hr : Reach c s) (hk : 0 < c.maxActive) :
-    activeWorkers c s ≤ c.maxActive := by
-  sorry
-
-theorem executing_le_active (c : Cfg) (s : State) : executing c s ≤ activeWorkers c s := by
-  sorry
-
-/-- bookkeeping of attempts -/
-theorem execs_eq (c : Cfg) (hn : NoRep c) (hd : c.dry = false) (s : State) (hr : Reach c s) (i : Nat) :
-    (s.nd i).execs = (s.nd i).retry + (if (s.nd i).ranLast then 1 else 0) := by
-  sorry
+open Lim
 
 theorem retry_le_limit (c : Cfg) (s : State) (hr : Reach c s) (i : Nat) :
     (s.nd i).retry ≤ (c.node i).limit := by
-  sorry
+  induction hr with
+  | init => simp [init]
+  | step a hr hs ih =>
+    cases a with
+    | visitDecide j =>
+      rcases step_visitDecide hs with ⟨-, -, rfl | ⟨-, l, -, -, rfl⟩ | ⟨-, -, -, -, rfl⟩⟩
+      · exact ih
+      · simp; split <;> simp_all
+      · exact ih
+    | _ =>
+      step_cases hs
+      all_goals first | exact ih | (simp; split <;> simp_all <;> omega)
 
 theorem dry_no_exec (c : Cfg) (hd : c.dry = true) (s : State) (hr : Reach c s) (i : Nat) :
     (s.nd i).execs = 0 := by
-  sorry
+  induction hr with
+  | init => simp [init]
+  | step a hr hs ih =>
+    cases a with
+    | visitDecide j =>
+      rcases step_visitDecide hs with ⟨-, -, rfl | ⟨-, l, -, -, rfl⟩ | ⟨-, -, -, -, rfl⟩⟩
+      · exact ih
+      · simp; split <;> simp_all
+      · exact ih
+    | _ =>
+      step_cases hs
+      all_goals first | exact ih | (simp; split <;> simp_all)
 
-/-- final accounting for a run that was neither stopped nor timed out -/
+theorem executing_le_active (c : Cfg) (s : State) : executing c s ≤ activeWorkers c s := by
+  rw [executing_eq, activeWorkers_eq]
+  apply cnt_mono
+  intro j _
+  cases (s.nd j).pc <;> simp [PC.active]
+
+/-! ### C15: the `maxActiveRuns` limit -/
+
+theorem rc_aux {c : Cfg} {s s' : State} {k : Nat}
+    (h1 : runningCount c s ≤ k) (h2 : ∀ i, s.loop = .launching i → runningCount c s < k)
+    (hp : ∀ j, (s'.nd j).status = .running → (s.nd j).status = .running)
+    (hl : ∀ i, s'.loop = .launching i → s.loop = .launching i) :
+    runningCount c s' ≤ k ∧ ∀ i, s'.loop = .launching i → runningCount c s' < k := by
+  have hle : runningCount c s' ≤ runningCount c s := by
+    rw [runningCount_eq, runningCount_eq]
+    apply cnt_mono
+    intro j _
+    simpa using hp j
+  refine ⟨by omega, fun i hi => ?_⟩
+  have := h2 i (hl i hi)
+  omega
+
+theorem rc_aux_launch {c : Cfg} {s s' : State} {k : Nat} (j : Nat)
+    (h1 : runningCount c s < k)
+    (hp : ∀ x, x ≠ j → (s'.nd x).status = .running → (s.nd x).status = .running)
+    (hl : ∀ i, s'.loop ≠ .launching i) :
+    runningCount c s' ≤ k ∧ ∀ i, s'.loop = .launching i → runningCount c s' < k := by
+  have hle : runningCount c s' ≤ runningCount c s + 1 := by
+    rw [runningCount_eq, runningCount_eq]
+    apply cnt_frame_succ j
+    intro x hx
+    simpa using hp x hx
+  exact ⟨by omega, fun i hi => absurd hi (hl i)⟩
+
+theorem rc_inv (c : Cfg) (s : State) (hr : Reach c s) (hk : 0 < c.maxActive) :
+    runningCount c s ≤ c.maxActive ∧ ∀ i, s.loop = .launching i → runningCount c s < c.maxActive := by
+  induction hr with
+  | init =>
+    have : runningCount c (init c) = 0 := by
+      rw [runningCount_eq]; exact cnt_zero (fun _ => rfl)
+    rw [this]
+    exact ⟨Nat.zero_le _, fun i hi => by simp [init] at hi⟩
+  | step a hr hs ih =>
+    obtain ⟨ih1, ih2⟩ := ih
+    cases a with
+    | visitDecide j =>
+      rcases step_visitDecide hs with ⟨hsc, -, rfl | ⟨hst, l, hl, -, rfl⟩ | ⟨-, -, hm, -, rfl⟩⟩
+      · exact ⟨ih1, ih2⟩
+      · apply rc_aux ih1 ih2
+        · intro x; simp; split <;> rcases hl with rfl | rfl <;> simp_all
+        · simp
+      · exact ⟨ih1, fun _ _ => hm hk⟩
+    | visitLaunch j b =>
+      step_cases hs
+      all_goals
+        apply rc_aux_launch j (ih2 j (by assumption))
+        · intro x hx; simp [hx]
+        · simp
+    | _ =>
+      step_cases hs
+      all_goals
+        apply rc_aux ih1 ih2
+        · intro x; simp; try (split <;> simp_all)
+        · simp_all
+
+theorem runningCount_le (c : Cfg) (s : State) (hr : Reach c s) (hk : 0 < c.maxActive) :
+    runningCount c s ≤ c.maxActive := (rc_inv c s hr hk).1
+
+/-! ### structural invariants without repeat policies -/
+
+/-- a node in status `none` has no worker -/
+theorem none_idle (c : Cfg) (hn : NoRep c) (s : State) (hr : Reach c s) (j : Nat) :
+    (s.nd j).status = .none → (s.nd j).pc = .idle := by
+  induction hr with
+  | init => simp [init]
+  | step a hr hs ih =>
+    cases a with
+    | visitDecide i =>
+      rcases step_visitDecide hs with ⟨-, -, rfl | ⟨-, l, hl, -, rfl⟩ | ⟨-, -, -, -, rfl⟩⟩
+      · exact ih
+      · simp; split <;> rcases hl with rfl | rfl <;> simp_all
+      · exact ih
+    | _ =>
+      step_cases hs
+      all_goals first | exact ih | (simp [aePc_ne_check hn] at * <;> (try split) <;> simp_all)
+
+/-- the loop only decides to launch a node in status `none`, and nobody else touches such a node -/
+theorem launching_none (c : Cfg) (hn : NoRep c) (s : State) (hr : Reach c s) (i : Nat) :
+    s.loop = .launching i → (s.nd i).status = .none := by
+  induction hr with
+  | init => simp [init]
+  | step a hr hs ih =>
+    have hB := none_idle c hn _ hr i
+    cases a with
+    | visitDecide j =>
+      rcases step_visitDecide hs with ⟨hsc, -, rfl | ⟨-, l, hl, -, rfl⟩ | ⟨hst, -, -, -, rfl⟩⟩
+      · exact ih
+      · simp [hsc]
+      · simp; rintro rfl; exact hst
+    | _ =>
+      step_cases hs
+      all_goals first | exact ih | (simp [aePc_ne_check hn] at * <;> (try split) <;> simp_all)
+
+/-- in an unstopped run every worker that can still execute belongs to a node in status `running` -/
+theorem active_running (c : Cfg) (hn : NoRep c) (s : State) (hr : Reach c s) (hc : s.canceled = false)
+    (j : Nat) : (s.nd j).pc.active = true → (s.nd j).status = .running := by
+  induction hr with
+  | init => simp [init]
+  | step a hr hs ih =>
+    have hB := none_idle c hn _ hr j
+    have hL := launching_none c hn _ hr j
+    cases a with
+    | visitDecide i =>
+      rcases step_visitDecide hs with ⟨hsc, -, rfl | ⟨hst, l, hl, -, rfl⟩ | ⟨hst, -, -, -, rfl⟩⟩
+      · exact ih hc
+      · simp at *; split <;> simp_all
+      · exact ih hc
+    | _ =>
+      step_cases hs
+      all_goals first | exact ih hc |
+        (simp [aePc_ne_check hn] at * <;> (try split) <;> simp_all [aePc_active hn])
+
+theorem aw_aux {c : Cfg} {s s' : State} {k : Nat}
+    (h1 : activeWorkers c s ≤ k) (h2 : ∀ i, s.loop = .launching i → activeWorkers c s < k)
+    (hp : ∀ j, (s'.nd j).pc.active = true → (s.nd j).pc.active = true)
+    (hl : ∀ i, s'.loop = .launching i → s.loop = .launching i) :
+    activeWorkers c s' ≤ k ∧ ∀ i, s'.loop = .launching i → activeWorkers c s' < k := by
+  have hle : activeWorkers c s' ≤ activeWorkers c s := by
+    rw [activeWorkers_eq, activeWorkers_eq]
+    exact cnt_mono (fun j _ => hp j)
+  refine ⟨by omega, fun i hi => ?_⟩
+  have := h2 i (hl i hi)
+  omega
+
+theorem aw_aux_launch {c : Cfg} {s s' : State} {k : Nat} (j : Nat)
+    (h1 : activeWorkers c s < k)
+    (hp : ∀ x, x ≠ j → (s'.nd x).pc.active = true → (s.nd x).pc.active = true)
+    (hl : ∀ i, s'.loop ≠ .launching i) :
+    activeWorkers c s' ≤ k ∧ ∀ i, s'.loop = .launching i → activeWorkers c s' < k := by
+  have hle : activeWorkers c s' ≤ activeWorkers c s + 1 := by
+    rw [activeWorkers_eq, activeWorkers_eq]
+    exact cnt_frame_succ j hp
+  exact ⟨by omega, fun i hi => absurd hi (hl i)⟩
+
+theorem aw_le_rc (c : Cfg) (hn : NoRep c) (s : State) (hr : Reach c s) (hc : s.canceled = false) :
+    activeWorkers c s ≤ runningCount c s := by
+  rw [activeWorkers_eq, runningCount_eq]
+  apply cnt_mono
+  intro x _ hx
+  simpa using active_running c hn _ hr hc x hx
+
+theorem aw_inv (c : Cfg) (hn : NoRep c) (s : State) (hr : Reach c s) (hk : 0 < c.maxActive) :
+    activeWorkers c s ≤ c.maxActive ∧ ∀ i, s.loop = .launching i → activeWorkers c s < c.maxActive := by
+  induction hr with
+  | init =>
+    have : activeWorkers c (init c) = 0 := by
+      rw [activeWorkers_eq]; exact cnt_zero (fun _ => rfl)
+    rw [this]
+    exact ⟨Nat.zero_le _, fun i hi => by simp [init] at hi⟩
+  | step a hr hs ih =>
+    obtain ⟨ih1, ih2⟩ := ih
+    cases a with
+    | visitDecide j =>
+      rcases step_visitDecide hs with ⟨hsc, -, rfl | ⟨hst, l, hl, -, rfl⟩ | ⟨-, hcn, hm, -, rfl⟩⟩
+      · exact ⟨ih1, ih2⟩
+      · apply aw_aux ih1 ih2
+        · intro x; simp; split <;> simp_all
+        · simp
+      · refine ⟨ih1, fun _ _ => ?_⟩
+        have h1 := aw_le_rc c hn _ hr hcn
+        exact Nat.lt_of_le_of_lt h1 (hm hk)
+    | visitLaunch j b =>
+      step_cases hs
+      all_goals
+        apply aw_aux_launch j (ih2 j (by assumption))
+        · intro x hx; simp [hx]
+        · simp
+    | _ =>
+      step_cases hs
+      all_goals
+        apply aw_aux ih1 ih2
+        · intro x; simp; try (split <;> simp_all [aePc_active hn])
+        · simp_all
+
+theorem activeWorkers_le (c : Cfg) (hn : NoRep c) (s : State) (hr : Reach c s) (hk : 0 < c.maxActive) :
+    activeWorkers c s ≤ c.maxActive := (aw_inv c hn s hr hk).1
+
+/-! ### C03: bookkeeping of attempts -/
+
+/-- per-node invariant behind `execs_eq` -/
+def ExInv (x : NodeSt) : Prop :=
+  x.execs = x.retry + (if x.ranLast then 1 else 0) ∧
+  ((x.pc = .setup ∨ x.pc = .check ∨ x.pc = .starting ∨ x.pc = .retrySleep ∨ x.status = .none) →
+    x.ranLast = false) ∧
+  (x.pc = .exec → x.ranLast = true)
+
+theorem ex_inv (c : Cfg) (hn : NoRep c) (hd : c.dry = false) (s : State) (hr : Reach c s) (j : Nat) :
+    ExInv (s.nd j) := by
+  induction hr with
+  | init => simp [init, ExInv]
+  | step a hr hs ih =>
+    have hB := none_idle c hn _ hr j
+    have hL := launching_none c hn _ hr j
+    cases a with
+    | visitDecide i =>
+      rcases step_visitDecide hs with ⟨hsc, -, rfl | ⟨hst, l, hl, -, rfl⟩ | ⟨hst, -, -, -, rfl⟩⟩
+      · exact ih
+      · simp [ExInv] at *; split <;> simp_all
+      · exact ih
+    | _ =>
+      step_cases hs
+      all_goals first | exact ih |
+        (simp [ExInv, aePc_eq_noRep hn] at * <;> (try split) <;> simp_all [aePc_eq_noRep hn])
+
+/-- bookkeeping of attempts -/
+theorem execs_eq (c : Cfg) (hn : NoRep c) (hd : c.dry = false) (s : State) (hr : Reach c s) (i : Nat) :
+    (s.nd i).execs = (s.nd i).retry + (if (s.nd i).ranLast then 1 else 0) :=
+  (ex_inv c hn hd s hr i).1
+
+/-! ### C03: final accounting of an unstopped run -/
+
+/-- the stop flag and the timeout flag are never reset -/
+theorem step_flags {c : Cfg} {s s' : State} {a : Act} (hs : step c s a = some s') :
+    (s'.canceled = false → s.canceled = false) ∧ (s'.timedOut = false → s.timedOut = false) := by
+  cases a with
+  | visitDecide i =>
+    rcases step_visitDecide hs with ⟨-, -, rfl | ⟨-, l, -, -, rfl⟩ | ⟨-, -, -, -, rfl⟩⟩ <;> simp
+  | _ =>
+    step_cases hs
+    all_goals simp_all
+
+/-- in an unstopped run without teardown faults, a terminal status is never overwritten -/
+theorem status_stable (c : Cfg) (hn : NoRep c) (hf : c.tdFaults = false) (s s' : State) (hr : Reach c s)
+    (a : Act) (hs : step c s a = some s') (hc : s'.canceled = false) (j : Nat)
+    (h1 : (s.nd j).status ≠ .none) (h2 : (s.nd j).status ≠ .running) :
+    (s'.nd j).status = (s.nd j).status := by
+  have hc0 := (step_flags hs).1 hc
+  have hL := launching_none c hn _ hr j
+  have hA := active_running c hn _ hr hc0 j
+  cases a with
+  | visitDecide i =>
+    rcases step_visitDecide hs with ⟨-, -, rfl | ⟨hst, l, -, -, rfl⟩ | ⟨-, -, -, -, rfl⟩⟩
+    · rfl
+    · simp; split <;> simp_all
+    · rfl
+  | _ =>
+    step_cases hs
+    all_goals first | rfl | (simp at * <;> (try split) <;> simp_all)
+
+theorem licensed_stable (c : Cfg) (hn : NoRep c) (hf : c.tdFaults = false) (s s' : State) (hr : Reach c s)
+    (a : Act) (hs : step c s a = some s') (hc : s'.canceled = false) (d : Nat)
+    (h : Licensed c s d) : Licensed c s' d := by
+  have := status_stable c hn hf s s' hr a hs hc d
+  unfold Licensed at *
+  rcases h with h | ⟨h, h'⟩ | ⟨h, h'⟩ <;> simp_all
+
+/-- the loop has decided to launch `i`, or a worker of `i` is before/in an execution, or `i` has executed -/
+def Started (s : State) (i : Nat) : Prop :=
+  s.loop = .launching i ∨ (s.nd i).pc.active = true ∨ (s.nd i).execs > 0
+
+theorem started_step {c : Cfg} {s s' : State} {a : Act} (hs : step c s a = some s') (i : Nat)
+    (h : Started s' i) : Started s i ∨ ∀ d ∈ (c.node i).deps, Licensed c s d := by
+  cases a with
+  | visitDecide j =>
+    rcases step_visitDecide hs with ⟨hsc, -, rfl | ⟨-, l, -, -, rfl⟩ | ⟨-, -, -, hlic, rfl⟩⟩
+    · exact Or.inl h
+    · left
+      simp [Started] at *
+      split at h <;> simp_all
+    · by_cases hij : i = j
+      · subst hij; exact Or.inr hlic
+      · left
+        simp [Started] at *
+        rcases h with h | h
+        · exact absurd h.symm hij
+        · exact Or.inr h
+  | _ =>
+    step_cases hs
+    all_goals first | exact Or.inl h |
+      (left; simp [Started] at * <;> (try split at h) <;> simp_all)
+
+/-- the dependencies of a started node are licensed, for good (unstopped run, no teardown faults) -/
+theorem deps_licensed (c : Cfg) (hn : NoRep c) (hf : c.tdFaults = false) (s : State) (hr : Reach c s)
+    (hc : s.canceled = false) (i : Nat) (h : Started s i) : ∀ d ∈ (c.node i).deps, Licensed c s d := by
+  induction hr with
+  | init => simp [Started, init] at h
+  | @step s0 s1 a hr hs ih =>
+    have hc0 := (step_flags hs).1 hc
+    have key : ∀ d ∈ (c.node i).deps, Licensed c s0 d := by
+      rcases started_step hs i h with h0 | h0
+      · exact ih hc0 h0
+      · exact h0
+    exact fun d hd => licensed_stable c hn hf s0 s1 hr a hs hc d (key d hd)
+
+/-- per-node invariant of an unstopped, un-timed-out run behind `final_counts` -/
+def FinInv (c : Cfg) (i : Nat) (x : NodeSt) : Prop :=
+  (x.pc = .tail → x.status = .running → x.ranLast = true) ∧
+  (x.status = .success → x.ranLast = true) ∧
+  (x.pc = .wErr → x.ranLast = true ∧ x.retry = (c.node i).limit) ∧
+  (x.status = .error →
+    (x.setupFailed = true ∧ x.ranLast = false) ∨ (x.ranLast = true ∧ x.retry = (c.node i).limit)) ∧
+  x.pc ≠ .wTimeout ∧
+  (x.status = .cancel → x.execs = 0) ∧
+  (x.status = .skipped → x.ranLast = false ∧ (x.preSkip = false → x.execs = 0))
+
+theorem fin_inv (c : Cfg) (hn : NoRep c) (hdry : c.dry = false) (hf : c.tdFaults = false)
+    (s : State) (hr : Reach c s) (hc : s.canceled = false) (ht : s.timedOut = false) (j : Nat) :
+    FinInv c j (s.nd j) := by
+  induction hr with
+  | init => simp [init, FinInv]
+  | @step s0 s1 a hr hs ih =>
+    have hc0 := (step_flags hs).1 hc
+    have ht0 := (step_flags hs).2 ht
+    replace ih := ih hc0 ht0
+    have hB := none_idle c hn _ hr j
+    have hL := launching_none c hn _ hr j
+    have hA := active_running c hn _ hr hc0 j
+    have hE := ex_inv c hn hdry _ hr j
+    have hR := retry_le_limit c _ hr j
+    cases a with
+    | visitDecide i =>
+      rcases step_visitDecide hs with ⟨hsc, -, rfl | ⟨hst, l, hl, hnl, rfl⟩ | ⟨hst, -, -, -, rfl⟩⟩
+      · exact ih
+      · have hns : ¬ Started s0 i := fun h => hnl (deps_licensed c hn hf s0 hr hc0 i h)
+        simp [FinInv, ExInv, Started] at *
+        clear hs hnl
+        split
+        · next hji =>
+          subst hji
+          simp only [hst] at *
+          rcases hl with rfl | rfl <;> simp_all
+        · exact ih
+      · exact ih
+    | _ =>
+      step_cases hs
+      all_goals first | exact ih |
+        (simp only [setNode_nd, afterExec_nd, updN_apply]
+         split
+         · next hji =>
+           subst hji
+           simp [FinInv, ExInv, aePc_eq_noRep hn] at * <;> (try simp_all) <;> (try omega)
+         · exact ih)
+
+
+set_option linter.unusedVariables false in
+/-- final accounting for a run that was neither stopped nor timed out.
+    (The proof shows that the four clauses hold in *every* reachable state of an unstopped,
+    un-timed-out run; `hw`, `hl` and `hi` are not needed.) -/
 theorem final_counts (c : Cfg) (hw : WF c) (hn : NoRep c) (hdry : c.dry = false) (hf : c.tdFaults = false)
     (s : State) (hr : Reach c s) (hc : s.canceled = false) (ht : s.timedOut = false)
     (hl : LoopDone s) (i : Nat) (hi : i < c.n) :
@@ -37,6 +391,23 @@ theorem final_counts (c : Cfg) (hw : WF c) (hn : NoRep c) (hdry : c.dry = false)
     ((s.nd i).status = .cancel → (s.nd i).execs = 0) ∧
     ((s.nd i).status = .skipped →
         (s.nd i).execs = (s.nd i).retry ∧ ((s.nd i).preSkip = false → (s.nd i).execs = 0)) := by
-  sorry
+  have hE := execs_eq c hn hdry s hr i
+  obtain ⟨-, h2, -, h4, -, h6, h7⟩ := fin_inv c hn hdry hf s hr hc ht i
+  refine ⟨fun h => ?_, fun h => ?_, h6, fun h => ?_⟩
+  · simpa [h2 h] using hE
+  · rcases h4 h with ⟨h1, h3⟩ | ⟨h1, h3⟩
+    · exact Or.inl ⟨h1, by simpa [h3] using hE⟩
+    · exact Or.inr ⟨by simp [h1] at hE; omega, h3⟩
+  · obtain ⟨h1, h3⟩ := h7 h
+    exact ⟨by simpa [h1] using hE, h3⟩
+
+
+#print axioms runningCount_le
+#print axioms activeWorkers_le
+#print axioms executing_le_active
+#print axioms execs_eq
+#print axioms retry_le_limit
+#print axioms dry_no_exec
+#print axioms final_counts
 
 end BdModel.Sched
